@@ -365,7 +365,33 @@ fn gen_ring(g: &mut Gen, fl: Flavor) -> Vec<C> {
     v
 }
 
+/// geometry collections (empty, one element, nested, several), rects and triangles are refused
+pub fn oracle_c20_collections() -> Verdict {
+    let pt = gt::Geometry::Point(gt::Point::new(1.0, 2.0));
+    let poly = gt::Geometry::Polygon(gt::Polygon::new(gt::LineString::from(vec![(0.0, 0.0), (0.0, 4.0), (4.0, 4.0), (0.0, 0.0)]), vec![]));
+    let coll = |v: Vec<gt::Geometry<f64>>| gt::Geometry::GeometryCollection(gt::GeometryCollection(v));
+    let cases: Vec<(&str, gt::Geometry<f64>)> = vec![
+        ("empty collection", coll(vec![])),
+        ("collection of one point", coll(vec![pt.clone()])),
+        ("collection of one polygon", coll(vec![poly.clone()])),
+        ("collection holding a collection of one point", coll(vec![coll(vec![pt.clone()])])),
+        ("collection of two points", coll(vec![pt.clone(), pt.clone()])),
+    ];
+    for (name, g) in cases {
+        match catch_unwind(AssertUnwindSafe(|| Shape::try_from(g))) {
+            Err(e) => return Verdict::fail("geo-panic", format!("{}: {}", name, panic_msg(&e))),
+            Ok(Ok(s)) => return Verdict::fail("geo-collection-accepted", format!("{} was converted to a {} shape instead of being refused", name, s.shapetype())),
+            Ok(Err(_)) => {}
+        }
+    }
+    Verdict::pass()
+}
+
 pub fn cases_geo(tier: &str, rng: &mut Rng, stats: &mut Stats, out: &mut Out) {
+    {
+        let id = out.oracle_only_id();
+        out.verdict(&id, "scenario geo-collections", oracle_c20_collections());
+    }
     let n = if tier == "thorough" { 6000 } else { 320 };
     for i in 0..n {
         let mut g = Gen { rng, stats, max_parts: 4, max_points: 5 };
